@@ -33,8 +33,11 @@ def gen_cases(rng, tier: str) -> list[dict]:
         exprs += [("repeated", e) for e in repeated_var_exprs(g)]
     exprs += common.expr_stream(rng, tier, common.sizes(tier, 300, 4000), share=0.5)
     for origin, e in exprs:
+        prior: list[str] = []
         for p in common.points_for(rng, e, 2, extra=0.2):
             c = common.make_eval_case(origin, e, p)
+            c["prior"] = prior[:]
+            prior.append(c["p"])
             c["route"] = rng.choice(["LD", "FATL"])
             cases.append(c)
     return cases
@@ -45,6 +48,9 @@ def check_cases(cases: list[dict], rep: Report, known: dict) -> None:
     for c in cases:
         e = wire.build_raw(c["e"])
         p = wire.build_point(c["p"])
+        for q in c.get("prior", []):
+            call(lambda: sm.LocatedDifferential(e, wire.build_point(q)))
+            call(e.at, wire.build_point(q))
         if c["route"] == "LD":
             obj = call(lambda: sm.LocatedDifferential(e, p))
         else:
